@@ -492,7 +492,8 @@ Definition clear (i : index) : index := mkIndex (i_name i) (i_table i) (i_unique
 Definition index_sem_ok (ts : list table) (i : index) : Prop :=
   is_ascii (i_name i) = true /\ ascii_upper (i_name i) = i_name i /\
   exists ti t idxs, index_table_idx (mkDb [] [] ts [] []) (i_table i) = Some ti
-                    /\ nth_error ts ti = Some t /\ columns_idx (t_cols t) (i_cols i) = POk idxs.
+                    /\ nth_error ts ti = Some t /\ columns_idx (t_cols t) (i_cols i) = POk idxs
+                    /\ index_unique_ok (i_unique i) (t_rows t) idxs = POk tt.
 
 Lemma find_key_strip ts k : find_key (map strip ts) k = find_key ts k.
 Proof. unfold find_key. rewrite find_idx_map. reflexivity. Qed.
@@ -516,7 +517,7 @@ Lemma fold_create_indexes s r ts : forall is acc,
   = Ok (mkDb s r (map strip ts) (acc ++ map clear is) []) [].
 Proof.
   induction is as [|i is IH]; intros acc Hnd Hok; cbn [map fold_out]; [now rewrite app_nil_r|].
-  inversion Hok as [|? ? Hi His]; subst. destruct Hi as (Ha & Hup & ti & t & idxs & Hti & Hnth & Hcols).
+  inversion Hok as [|? ? Hi His]; subst. destruct Hi as (Ha & Hup & ti & t & idxs & Hti & Hnth & Hcols & _).
   unfold ispec at 1. unfold create_index at 1.
   rewrite index_table_idx_strip, Hti, Ha. cbn [negb]. rewrite Hup. cbn [d_indexes d_tables].
   assert (Hex : existsb (fun i0 => bytes_eqb (i_name i0) (i_name i)) acc = false).
@@ -524,6 +525,8 @@ Proof.
     apply bytes_eqb_eq in He. rewrite map_app in Hnd. cbn [map] in Hnd. apply NoDup_remove_2 in Hnd.
     exfalso. apply Hnd. apply in_or_app. left. rewrite <- He. apply in_map. exact Hx. }
   rewrite Hex. rewrite (map_nth_error strip ti ts Hnth). cbn [strip t_cols t_rows]. rewrite Hcols.
+  assert (Hu : index_unique_ok (i_unique i) [] idxs = POk tt) by (unfold index_unique_ok; destruct (i_unique i); reflexivity).
+  rewrite Hu.
   cbn [entries_from d_schemas d_roles d_triggers].
   change (mkIndex (i_name i) (i_table i) (i_unique i) (i_cols i) []) with (clear i).
   rewrite (IH (acc ++ [clear i])).
@@ -619,12 +622,12 @@ Lemma rebuild_all_ok d l :
   Forall (index_sem_ok (d_tables d)) l -> exists l', rebuild_all d l = Ok l' [].
 Proof.
   induction l as [|i l IH]; intros H; cbn [rebuild_all]; [eexists; reflexivity|].
-  inversion H as [|? ? Hi Hl]; subst. destruct Hi as (_ & _ & ti & t & idxs & Hti & Hnth & Hc).
+  inversion H as [|? ? Hi Hl]; subst. destruct Hi as (_ & _ & ti & t & idxs & Hti & Hnth & Hc & Hu).
   destruct (IH Hl) as [l' El].
   unfold rebuild_index.
   assert (Hti' : index_table_idx d (i_table i) = Some ti).
   { destruct d. exact Hti. }
-  rewrite Hti', Hnth, Hc, El. eexists. reflexivity.
+  rewrite Hti', Hnth, Hc, Hu, El. eexists. reflexivity.
 Qed.
 
 (** the loaded database: everything back -- schemas, roles, tables, columns, types, nullability, rows
@@ -660,10 +663,10 @@ Definition db_example : db :=
   mkDb [lit "s2"] [lit "r1"]
        [mkTable (lit "T") [mkCol (lit "A") TInteger false; mkCol (lit "B") (TVarchar (Some 10)) true; mkCol (lit "C") TDate true]
           [[BV (VInteger 1); BV (VVarchar [195; 169; 39]); BV (VDate 2024 2 29)];
-           [BV (VInteger (-9223372036854775808)); BV VNull; BV VNull]] 0;
+           [BV (VInteger (-9007199254740992)); BV VNull; BV VNull]] 0;
         mkTable (lit "U") [mkCol (lit "X") TDouble true] [[BV (VDouble 9221120237041090560)]; [BV (VDouble 9223372036854775808)]] 0]
        [mkIndex (lit "IA") (lit "T") true [(lit "A", 1)]
-          [([BV (VInteger 1)], 0); ([BV (VInteger (-9223372036854775808))], 1)]] [].
+          [([BV (VInteger 1)], 0); ([BV (VInteger (-9007199254740992))], 1)]] [].
 
 Example db_example_wf : wf_db E0 db_example.
 Proof.
